@@ -166,6 +166,12 @@ void instantiate_everything(MPI_Comm comm, std::istream& in, std::ostream& out)
     auto a3 = hep::accumulate<hep::weighted_with_variance>(r2.results().begin(),
         r2.results().end());
     auto a4 = hep::accumulate<hep::weighted_equally>(r2.results().begin(), r2.results().end());
+    // the public combination functions over every result type, so that their instantiation does not depend on
+    // what the built-in callback happens to use
+    auto a5 = hep::accumulate<hep::weighted_with_variance>(r4.results().begin(), r4.results().end());
+    auto a6 = hep::accumulate<hep::weighted_with_variance>(r6.results().begin(), r6.results().end());
+    auto c3 = hep::chi_square_dof<hep::weighted_with_variance>(r2.results().begin(), r2.results().end());
+    (void) a5; (void) a6; (void) c3;
     auto c1 = hep::chi_square_dof<hep::weighted_with_variance>(mcr.begin(), mcr.end());
     auto c2 = hep::chi_square_dof<hep::weighted_equally>(r2.results().begin(),
         r2.results().end());
